@@ -160,6 +160,32 @@ func fieldsBehind(p *core.Program, v ssa.Value, depth int, out map[string]bool, 
 				}
 			}
 		}
+		if fv, ok := x.(*ssa.FreeVar); ok && depth > 0 {
+			// a variable captured by a closure: what the enclosing function stored into it
+			cf := fv.Parent()
+			if par := cf.Parent(); par != nil {
+				core.EachInstr(par, func(_ *ssa.BasicBlock, _ int, ins ssa.Instruction) {
+					mc, ok := ins.(*ssa.MakeClosure)
+					if !ok || mc.Fn != cf {
+						return
+					}
+					for i, q := range cf.FreeVars {
+						if q != fv || i >= len(mc.Bindings) {
+							continue
+						}
+						bnd := mc.Bindings[i]
+						fieldsBehind(p, bnd, depth-1, out, seen)
+						if a, ok := bnd.(*ssa.Alloc); ok {
+							for _, r := range core.Referrers(a) {
+								if st, ok := r.(*ssa.Store); ok && st.Addr == a {
+									fieldsBehind(p, st.Val, depth-1, out, seen)
+								}
+							}
+						}
+					}
+				})
+			}
+		}
 		if pr, ok := x.(*ssa.Parameter); ok && depth > 0 {
 			fn := pr.Parent()
 			for i, q := range fn.Params {
